@@ -20,6 +20,7 @@
 
 #include <chrono>
 #include <exception>
+#include <string>
 #include <vector>
 
 #if YACLIB_CORO != 0
@@ -36,6 +37,20 @@
 
 using namespace yaclib;
 using namespace std::chrono_literals;
+
+// a value whose copy allocates (std::string member) and whose move constructor / assignment are NOT noexcept
+struct LooseValue {
+  std::string text;
+  LooseValue() = default;
+  LooseValue(const LooseValue&) = default;
+  LooseValue& operator=(const LooseValue&) = default;
+  LooseValue(LooseValue&& other) : text(std::move(other.text)) {
+  }
+  LooseValue& operator=(LooseValue&& other) {
+    text = std::move(other.text);
+    return *this;
+  }
+};
 
 extern "C" {
 // ---------------------------------------------------------------- one allocation per pipeline step  (bound 1)
@@ -347,6 +362,20 @@ void stepk_join_static(Future<int>& a, Future<double>& b, Future<>& out) {
 }
 void stepk_join_dynamic(std::vector<Future<int>>& v, Future<>& out) {
   out = Join(v.begin(), v.size());
+}
+// ---- value / error types whose copy allocates and whose move is not noexcept: taking an input's result out of its core
+// must still be a move (a move_if_noexcept-style "safe" copy costs one block per input)
+void stepk_when_all_dynamic_loose(std::vector<Future<LooseValue>>& v, Future<std::vector<LooseValue>>& out) {
+  out = WhenAll(v.begin(), v.size());
+}
+void stepk_when_any_dynamic_loose(std::vector<Future<LooseValue>>& v, Future<LooseValue>& out) {
+  out = WhenAny(v.begin(), v.size());
+}
+void stepk_when_all_static_loose(Future<LooseValue>& a, Future<LooseValue>& b, Future<std::vector<LooseValue>>& out) {
+  out = WhenAll(std::move(a), std::move(b));
+}
+void stepk_join_dynamic_loose_firstfail(std::vector<Future<LooseValue>>& v, Future<>& out) {
+  out = Join<FailPolicy::FirstFail>(v.begin(), v.size());
 }
 }  // extern "C"
 
